@@ -635,3 +635,39 @@ Theorem stale_view_refuted :
               KElect 0 6; KReconcile 1; KReconcile 2; KPublish 25; KFetch 2 5; KFetch 2 0]%N in
   hw_of c 0%N = 5 /\ length (log_of c 1%N) = 5%nat /\ In 1%N (c_isr c).
 Proof. vm_compute. repeat split; auto. Qed.
+
+(* ---- "hold identical messages at every offset at or below both HWs", read strictly ----
+   The replicas that can be elected -- the in-sync ones and the leader -- hold a message at every
+   offset at or below their own HW, and it is the committed one. *)
+Lemma committed_prefix_below_hw c r l o : Inv c -> prefix (c_committed c) l -> Z.of_nat o <= hw_of c r ->
+  exists e, nth_error l o = Some e /\ nth_error (c_committed c) o = Some e.
+Proof.
+  intros HI [t ->] Ho. pose proof (hw_is_committed c r HI) as Hh.
+  destruct (nth_error (c_committed c) o) as [e|] eqn:E; [|apply nth_error_None in E; lia].
+  exists e. split; [|reflexivity]. rewrite nth_error_app1; [exact E|apply nth_error_Some; congruence].
+Qed.
+
+Theorem electable_hold_everything_below_hw c r o : Inv c -> In r (c_isr c) \/ r = c_leader c -> Z.of_nat o <= hw_of c r ->
+  exists e, nth_error (log_of c r) o = Some e /\ nth_error (c_committed c) o = Some e.
+Proof.
+  intros HI [Hr| ->] Ho.
+  - apply (committed_prefix_below_hw c r _ o HI); [apply isr_holds_committed; assumption|exact Ho].
+  - apply (committed_prefix_below_hw c (c_leader c) _ o HI); [apply leader_holds_committed; assumption|exact Ho].
+Qed.
+
+Theorem electable_identical_below_both_hws c r1 r2 o : Inv c ->
+  In r1 (c_isr c) \/ r1 = c_leader c -> In r2 (c_isr c) \/ r2 = c_leader c ->
+  Z.of_nat o <= hw_of c r1 -> Z.of_nat o <= hw_of c r2 ->
+  exists e, nth_error (log_of c r1) o = Some e /\ nth_error (log_of c r2) o = Some e.
+Proof.
+  intros HI H1 H2 Ho1 Ho2. destruct (electable_hold_everything_below_hw c r1 o HI H1 Ho1) as (e1 & A1 & B1).
+  destruct (electable_hold_everything_below_hw c r2 o HI H2 Ho2) as (e2 & A2 & B2). exists e1. split; [exact A1|]. congruence.
+Qed.
+
+(* a replica outside the in-sync set need not: it takes the leader's HW from every replication
+   response, also from one that brings it only part of the way *)
+Lemma lagging_replica_hw_beyond_its_log :
+  let c := run true (init_cluster [0; 1; 2]%N 0%N 4%N 1)
+             [KPublish 0; KPublish 1; KPublish 2; KFetch 1 3; KFetch 1 0; KShrink 2; KFetch 2 1]%N in
+  hw_of c 2%N = 2 /\ length (log_of c 2%N) = 1%nat /\ ~ In 2%N (c_isr c) /\ hw_of c 0%N = 2.
+Proof. vm_compute. repeat split; try reflexivity. intros [H|[H|[]]]; discriminate. Qed.
